@@ -804,7 +804,7 @@ Lemma decompress_example :
   WF L /\ 0 <= aoff L /\ Forall (fun row => length row = 2%nat) img /\
   Z.of_nat 2 * psz L <= 9 /\ (Z.of_nat 2 - 1) * 9 + Z.of_nat 2 * psz L <= Z.of_nat (length buf) /\
   ycc_rgb_convert prec8 L img buf (rows 9 2 true) =
-    [254; 0; 0; 255; 50; 100; 200; 255; 7; 0; 0; 254; 255; 0; 255; 0; 255; 7].
+    [254; 0; 0; 255; 50; 100; 200; 255; 7; 0; 0; 254; 255; 1; 255; 0; 255; 7].
 Proof.
   cbv zeta. split; [apply wf_layoutb_WF; vm_compute; reflexivity|].
   split; [vm_compute; discriminate|]. split; [repeat constructor|].
